@@ -22,8 +22,14 @@ MANIFEST = dict(
 )
 
 
+# rules that keep their verdict however the code is laid out (decided by term equality, effect analysis or dominance over
+# resolved calls); every other rule of this check is a template rule (vcheck.core.Check.obt)
+SEMANTIC = ('R20.gen', 'R20.isplit', 'R20.null', 'R20.pmap')
+
+
 def run(chk):
     repo = PyRepo()
+    chk.set_templates(repo, semantic=SEMANTIC)
     chk.explanation = MANIFEST["text"]
     chk.trusted = ["concurrent.futures.Executor.map preserves input order", "CPython ast"]
     chk.floor = 40
